@@ -43,7 +43,7 @@ class C06(Check):
         "truncated/corrupted reads. Non-trivial = file with >=2 blocks or a compressed codec."
     )
     assumptions = ["enumeration is exhaustive per generated file within the stated offset set, not over all files"]
-    required_labels = ["blocks>=2", "codec:deflate", "codec:bzip2", "codec:xz", "codec:null", "cut:boundary", "cut:in-header", "cut:in-payload", "cut:in-sync", "sync-altered", "schemaless-prefix", "block-count-2bytes"]
+    required_labels = ["blocks>=2", "codec:deflate", "codec:bzip2", "codec:xz", "codec:null", "cut:boundary", "cut:in-header", "cut:in-payload", "cut:in-sync", "sync-altered", "schemaless-prefix", "schemaless-prefix-with-reader-schema", "block-count-2bytes"]
     quick = (300, 1)
     thorough = (1500, 16)
 
@@ -190,6 +190,13 @@ class C06(Check):
                         raise Violation("sync-alteration-yields-later-records:" + name, f"yielded {len(got)} records {short(got)}; blocks up to the altered one hold {upto}; {ctx}")
             acc = upto
 
+        # reader schemas that drop the trailing field(s): a skipped value must be consumed exactly, too
+        droppers = []
+        if isinstance(js, dict) and js.get("type") == "record" and js.get("fields"):
+            for keep in sorted({0, len(js["fields"]) - 1, len(js["fields"]) // 2}):
+                rs = dict(js)
+                rs["fields"] = js["fields"][:keep]
+                droppers.append(rs)
         # schemaless prefixes of each record
         for r, e in zip(case["records"][:4], exp):
             fo = io.BytesIO()
@@ -201,6 +208,12 @@ class C06(Check):
                 o = outcome(fastavro.schemaless_reader, io.BytesIO(enc[:k]), schema)
                 if o[0] == "ok":
                     raise Violation("schemaless-prefix-accepted", f"prefix {k}/{len(enc)} of {enc[:60].hex()} decoded to {short(o[1])}; schema={js!r:.200}")
+                for rs in droppers:
+                    self.fault_points += 1
+                    labels.add("schemaless-prefix-with-reader-schema")
+                    o = outcome(fastavro.schemaless_reader, io.BytesIO(enc[:k]), js, rs)
+                    if o[0] == "ok":
+                        raise Violation("schemaless-prefix-accepted:reader-schema", f"prefix {k}/{len(enc)} of {enc[:60].hex()} read with a reader schema keeping {len(rs['fields'])} field(s) decoded to {short(o[1])}; schema={js!r:.200}")
         return labels
 
     def nontrivial(self, labels):
